@@ -270,9 +270,13 @@ pub fn run_sequence(config: &[ASCAConfig], dir: &Path, words_path: &Option<PathB
     };
     if words.is_empty() { return Ok(None) }
     trace.push(words.clone());
+    let last = seq.entries.len().saturating_sub(1);
     for (i, entry) in seq.entries.iter().enumerate() {
         files.push(entry.name.clone());
-        match asca::run(&entry.rules, &trace[i], &into, &from) {
+        // the deromaniser reads the sequence's input and the romaniser writes its output: between two rule files of the
+        // same sequence the words stay as they are, so that the sequence equals one run of all its rules (`conv tag`)
+        let (stage_into, stage_from): (&[String], &[String]) = (if i == 0 { &into } else { &[] }, if i == last { &from } else { &[] });
+        match asca::run(&entry.rules, &trace[i], stage_into, stage_from) {
             Ok(res) => trace.push(res),
             Err(err) => {
                 util::print_asca_errors(err, &words, &entry.rules, &into, &from);
